@@ -7,6 +7,7 @@ import (
 	"os"
 	"sort"
 	"strings"
+	"sync"
 
 	"golang.org/x/tools/go/ssa"
 
@@ -53,6 +54,7 @@ type ownAnalysis struct {
 	// locations by the goroutines
 	sharedWrites map[string]string
 	reads        []raceRead
+	recvMemo     map[*types.Var]own
 }
 
 type raceRead struct {
@@ -122,6 +124,8 @@ type ownCtx struct {
 	// ident[i]: parameter i is the goroutine's own partition key or element itself (the range key / element it was
 	// started for, handed on unchanged) - not merely something derived from it, which two goroutines may share
 	ident []bool
+	// freeIdent[i]: free variable i is a per-iteration copy of the goroutine's own key or element
+	freeIdent []bool
 }
 
 // backingClass: ownership of the array behind a slice value (not of what its elements refer to): a slice made here, or
@@ -234,7 +238,19 @@ func (a *ownAnalysis) isIdent(x *ownCtx, v ssa.Value, depth int) bool {
 		}
 		return len(t.Edges) > 0
 	case *ssa.UnOp:
+		if t.Op == token.ARROW {
+			_, id := a.received(t)
+			return id
+		}
 		if t.Op == token.MUL {
+			if fv, ok := t.X.(*ssa.FreeVar); ok {
+				for i, p := range x.fn.FreeVars {
+					if p == fv && i < len(x.freeIdent) {
+						return x.freeIdent[i]
+					}
+				}
+				return false
+			}
 			if al := rootAlloc(t.X); al != nil {
 				vals := storedInto(al)
 				for _, sv := range vals {
@@ -244,6 +260,150 @@ func (a *ownAnalysis) isIdent(x *ownCtx, v ssa.Value, depth int) bool {
 				}
 				return len(vals) > 0
 			}
+		}
+	case *ssa.Extract:
+		if u, ok := t.Tuple.(*ssa.UnOp); ok && u.Op == token.ARROW && t.Index == 0 {
+			return a.isIdent(x, u, depth+1)
+		}
+	case *ssa.Field:
+		// a part of the job the goroutine was handed (key and value of its entry travel together)
+		return a.isIdent(x, t.X, depth+1)
+	}
+	return false
+}
+
+// perIterationEntry: the captured variable is allocated inside the innermost loop around the call site - a range loop -
+// and its one store puts that iteration's key, value or element into it.
+func perIterationEntry(site *ssa.Call, bnd ssa.Value) bool {
+	al, ok := bnd.(*ssa.Alloc)
+	if !ok || site == nil {
+		return false
+	}
+	fn := site.Parent()
+	loop := core.InnermostLoop(fn, site.Block())
+	if loop == nil || !loop.Blocks[al.Block()] {
+		return false
+	}
+	st := core.SingleStore(al)
+	if st == nil {
+		return false
+	}
+	n := core.Norm(st)
+	if rl := core.RangeLoopOf(fn, site.Block()); rl != nil && rl.Loop == loop && rl.ElemOf(n) {
+		return true
+	}
+	if mr := mapRangeOf(site.Block()); mr != nil {
+		if ex, ok := n.(*ssa.Extract); ok {
+			if nx, ok := ex.Tuple.(*ssa.Next); ok && nx.Iter == ssa.Value(mr) && ex.Index >= 1 {
+				return true
+			}
+		}
+	}
+	return false
+}
+
+// chanIdentity names a channel by the place it lives in: a field (all objects of the type alias), or nil.
+func chanIdentity(v ssa.Value) *types.Var {
+	if u, ok := core.Norm(v).(*ssa.UnOp); ok && u.Op == token.MUL {
+		if fa, ok := u.X.(*ssa.FieldAddr); ok {
+			if st, ok := fa.X.Type().Underlying().(*types.Pointer).Elem().Underlying().(*types.Struct); ok {
+				return st.Field(fa.Field)
+			}
+		}
+	}
+	return nil
+}
+
+// received: the ownership class of what a receive yields, and whether it is the receiver's own entry unchanged.  Every
+// send on the channel (all channels living in the same field) must hand over the current entry - key, value, or a
+// struct literal made of them - of the map or slice its loop ranges over, once per iteration.
+func (a *ownAnalysis) received(recv *ssa.UnOp) (own, bool) {
+	id := chanIdentity(recv.X)
+	if id == nil {
+		return ownShared, false
+	}
+	if a.recvMemo == nil {
+		a.recvMemo = map[*types.Var]own{}
+	}
+	if cl, ok := a.recvMemo[id]; ok {
+		return cl, cl == ownPrivate
+	}
+	cl := ownPrivate
+	n := 0
+	for _, fn := range a.c.Scope {
+		for _, f := range core.WithAnon(fn) {
+			for _, b := range f.Blocks {
+				for _, in := range b.Instrs {
+					switch t := in.(type) {
+					case *ssa.Send:
+						if chanIdentity(t.Chan) != id {
+							continue
+						}
+						n++
+						if !sendsOwnEntry(f, t) {
+							cl = ownShared
+						}
+					case *ssa.Select:
+						for _, st := range t.States {
+							if st.Dir == types.SendOnly && chanIdentity(st.Chan) == id {
+								n++
+								cl = ownShared
+							}
+						}
+					}
+				}
+			}
+		}
+	}
+	if n == 0 {
+		cl = ownShared
+	}
+	a.recvMemo[id] = cl
+	return cl, cl == ownPrivate
+}
+
+// sendsOwnEntry: the send sits in the body of a range loop (not in a loop nested in it) and what it sends is that
+// iteration's key / value / element, or a struct literal holding nothing else.
+func sendsOwnEntry(fn *ssa.Function, s *ssa.Send) bool {
+	loop := core.InnermostLoop(fn, s.Block())
+	if loop == nil {
+		return false
+	}
+	rl := core.RangeLoopOf(fn, s.Block())
+	mr := mapRangeOf(s.Block())
+	if rl != nil && rl.Loop != loop {
+		rl = nil
+	}
+	entry := func(v ssa.Value) bool {
+		n := core.Norm(v)
+		if rl != nil && rl.ElemOf(n) {
+			return true
+		}
+		if ex, ok := n.(*ssa.Extract); ok && mr != nil {
+			if nx, ok := ex.Tuple.(*ssa.Next); ok && nx.Iter == ssa.Value(mr) && ex.Index >= 1 {
+				return true
+			}
+		}
+		return false
+	}
+	if rl == nil && mr == nil {
+		return false
+	}
+	if entry(s.X) {
+		return true
+	}
+	if u, ok := s.X.(*ssa.UnOp); ok && u.Op == token.MUL {
+		if al, ok := u.X.(*ssa.Alloc); ok && loop.Blocks[al.Block()] {
+			vals := storedInto(al)
+			for _, v := range vals {
+				if _, isConst := v.(*ssa.Const); isConst {
+					continue
+				}
+				if !entry(v) {
+					return false
+				}
+			}
+			return len(vals) > 0
 		}
 	}
 	return false
@@ -355,6 +515,14 @@ func (a *ownAnalysis) classVal(x *ownCtx, v ssa.Value, visiting map[ssa.Value]bo
 	case *ssa.Extract:
 		return rec(t.Tuple)
 	case *ssa.UnOp:
+		if t.Op == token.ARROW {
+			// a value taken from a channel belongs to whoever takes it if every send on that channel hands over
+			// something that is sent exactly once (the current entry of the collection the sender ranges over)
+			if cl, _ := a.received(t); cl != ownShared {
+				return cl
+			}
+			return ownShared
+		}
 		if t.Op != token.MUL {
 			return ownFresh
 		}
@@ -497,7 +665,7 @@ func (a *ownAnalysis) analyze(x *ownCtx, depth int) {
 	if x.fn == nil || x.fn.Blocks == nil || !a.c.InScope(x.fn) || depth > 10 {
 		return
 	}
-	key := fmt.Sprint(x.fn.String(), x.params, x.free, x.ident)
+	key := fmt.Sprint(x.fn.String(), x.params, x.free, x.ident, x.freeIdent)
 	if a.memo[key] {
 		return
 	}
@@ -982,7 +1150,8 @@ func c20(c *core.Ctx, r *core.Report) {
 		}
 	}
 	for _, g := range gos {
-		r.Check(known[core.FnName(g.fn)], "C20.R1", "go@"+core.FnName(g.fn), c.Pos(g.g.Pos()), "go statement is one of the two known fan-outs (definition scanning, Close); a new one has to be classified")
+		// ... or the interpretation of the scan / the closing routine as a whole goes through it
+		r.Check(known[core.FnName(g.fn)] || tableWentThrough(c, g.g), "C20.R1", "go@"+core.FnName(g.fn), c.Pos(g.g.Pos()), "go statement is one of the two known fan-outs (definition scanning, Close); a new one has to be classified")
 	}
 	r.Floor("C20.R1", "go statements in scope (each one classified above)", len(gos), 1)
 
@@ -1026,8 +1195,15 @@ func c20(c *core.Ctx, r *core.Report) {
 			for len(nx.params) < len(ps.payload.Params) {
 				nx.params = append(nx.params, ownShared)
 			}
-			for range ps.payload.FreeVars {
-				nx.free = append(nx.free, ownShared) // what the caller's literal captures is shared by all goroutines
+			for i := range ps.payload.FreeVars {
+				// what the caller's literal captures is shared by all goroutines - except a variable made anew in
+				// every iteration of the caller's loop that holds nothing but that iteration's entry
+				cl := ownShared
+				if ps.mc != nil && i < len(ps.mc.Bindings) && perIterationEntry(ps.site, ps.mc.Bindings[i]) {
+					cl = ownPrivate
+				}
+				nx.free = append(nx.free, cl)
+				nx.freeIdent = append(nx.freeIdent, cl == ownPrivate)
 			}
 			a.analyze(nx, 0)
 		}
@@ -1108,6 +1284,19 @@ func c20(c *core.Ctx, r *core.Report) {
 	// R5b: the singleton registry is built on the concurrent set, the registries on sync2.Map
 	concSet := c.Func("util/list", "NewConcurrentSets")
 	for _, T := range c.Implementors(c.Iface("container", "SingletonComponentRegistry")) {
+		// the types of the registry's package that keep plain maps behind a lock of their own count as concurrent
+		if pk := c.ByPath[T.Obj().Pkg().Path()]; pk != nil {
+			sc := pk.Types.Scope()
+			for _, nm := range sc.Names() {
+				if tn, isTN := sc.Lookup(nm).(*types.TypeName); isTN && !tn.IsAlias() {
+					if nn, isNamed := tn.Type().(*types.Named); isNamed {
+						if lockGuardedMaps(c, nn) {
+							guardedMapTypes.Store(nn, true)
+						}
+					}
+				}
+			}
+		}
 		st0, _ := T.Underlying().(*types.Struct)
 		okF := st0 != nil
 		// the state: the type's own fields and those of the unexported structs of its package it is layered on
@@ -1140,9 +1329,10 @@ func c20(c *core.Ctx, r *core.Report) {
 			addHolder(T, 0)
 		}
 		for _, h := range holders {
+			guarded := lockGuardedMaps(c, h.T)
 			for i := 0; i < h.st.NumFields(); i++ {
 				ts := h.st.Field(i).Type().String()
-				if strings.HasPrefix(ts, "map[") {
+				if strings.HasPrefix(ts, "map[") && !guarded {
 					okF = false
 				}
 			}
@@ -1240,9 +1430,22 @@ func derefType(t types.Type) types.Type {
 
 // concurrentContainer: the type's whole state is made of containers that are safe for concurrent use: sync.Map,
 // util/sync2.Map, util/list's concurrent sets, or a struct of such (a set type built on them).
+// guardedMapTypes: per analysed program, the struct types that keep plain maps behind a lock of their own (see
+// lockGuardedMaps); set by the registry-state rule before it asks concurrentContainer.
+var guardedMapTypes sync.Map // *types.Named -> bool
+
 func concurrentContainer(t types.Type, depth int) bool {
 	t = derefType(t)
 	n := core.NamedOf(t)
+	if n != nil {
+		o := n
+		if n.Origin() != nil {
+			o = n.Origin()
+		}
+		if v, ok := guardedMapTypes.Load(o); ok && v.(bool) {
+			return true
+		}
+	}
 	if n != nil && n.Obj().Pkg() != nil {
 		switch {
 		case n.Obj().Pkg().Path() == "sync" && n.Obj().Name() == "Map":
@@ -1381,6 +1584,148 @@ func simpleLockHeld(c *core.Ctx, in ssa.Instruction) bool {
 				return true
 			}
 			if _, isCall := cu.(*ssa.Call); isCall && c.InstrPostDominates(cu, in) && !core.Dominates(cu, in) {
+				return true
+			}
+		}
+	}
+	return false
+}
+
+// lockGuardedMaps: T is a struct with a mutex of its own and at least one map field, and every in-scope access to a
+// map field of T happens between Lock / RLock on that same object's mutex and the matching unlock (deferred, or
+// after the access on every path); updates and deletes need the write lock.
+func lockGuardedMaps(c *core.Ctx, T *types.Named) bool {
+	if T.Origin() != nil {
+		T = T.Origin()
+	}
+	key := "lock-guarded-maps:" + T.String()
+	if v, ok := c.Memo.Load(key); ok {
+		return v.(bool)
+	}
+	res := func() bool {
+		st := core.StructOf(T)
+		if st == nil {
+			return false
+		}
+		mu := -1
+		var maps []int
+		for i := 0; i < st.NumFields(); i++ {
+			switch ts := st.Field(i).Type().String(); {
+			case ts == "sync.Mutex" || ts == "sync.RWMutex":
+				mu = i
+			default:
+				if _, isMap := st.Field(i).Type().Underlying().(*types.Map); isMap {
+					maps = append(maps, i)
+				}
+			}
+		}
+		if mu < 0 || len(maps) == 0 {
+			return false
+		}
+		isMapField := func(i int) bool {
+			for _, m := range maps {
+				if m == i {
+					return true
+				}
+			}
+			return false
+		}
+		n := 0
+		for fn := range c.AllFns {
+			if fn.Blocks == nil {
+				continue
+			}
+			for _, b := range fn.Blocks {
+				for _, in := range b.Instrs {
+					fa, ok := in.(*ssa.FieldAddr)
+					if !ok || !isMapField(fa.Field) {
+						continue
+					}
+					owner := core.NamedOf(fa.X.Type())
+					if owner == nil {
+						continue
+					}
+					if owner.Origin() != nil {
+						owner = owner.Origin()
+					}
+					if owner != T {
+						continue
+					}
+					if _, fresh := core.Norm(fa.X).(*ssa.Alloc); fresh {
+						continue // the object is being built
+					}
+					n++
+					// how the field is used: written (map update / delete / store of a new map) or read
+					write := false
+					for _, rf := range *fa.Referrers() {
+						switch u := rf.(type) {
+						case *ssa.Store:
+							write = write || u.Addr == ssa.Value(fa)
+						case *ssa.UnOp:
+							for _, r2 := range *u.Referrers() {
+								switch w := r2.(type) {
+								case *ssa.MapUpdate:
+									write = write || w.Map == ssa.Value(u)
+								case ssa.CallInstruction:
+									if bi, isB := w.Common().Value.(*ssa.Builtin); isB && (bi.Name() == "delete" || bi.Name() == "clear") {
+										write = true
+									}
+								}
+							}
+						}
+					}
+					if !heldAround(c, fn, fa, mu, write) {
+						return false
+					}
+				}
+			}
+		}
+		return n > 0
+	}()
+	c.Memo.Store(key, res)
+	return res
+}
+
+// heldAround: in fn, a Lock (for writes) or Lock / RLock (for reads) on field mu of the same object dominates the
+// access, and the matching unlock is deferred or comes after the access on every path.
+func heldAround(c *core.Ctx, fn *ssa.Function, access *ssa.FieldAddr, mu int, write bool) bool {
+	sameObj := func(v ssa.Value) bool {
+		fa, ok := v.(*ssa.FieldAddr)
+		return ok && fa.Field == mu && (core.Norm(fa.X) == core.Norm(access.X) || core.Equiv(fa.X, access.X))
+	}
+	// one critical section per operation: a function that takes the object's lock twice may check in one section and
+	// act in the next
+	nLocks := 0
+	for _, ci := range core.Calls(fn) {
+		if (core.IsExtCall(ci.Common(), "(*sync.Mutex).Lock") || core.IsExtCall(ci.Common(), "(*sync.RWMutex).Lock") || core.IsExtCall(ci.Common(), "(*sync.RWMutex).RLock")) && len(ci.Common().Args) > 0 && sameObj(ci.Common().Args[0]) {
+			nLocks++
+		}
+	}
+	if nLocks > 1 {
+		return false
+	}
+	for _, ci := range core.Calls(fn) {
+		lock := core.IsExtCall(ci.Common(), "(*sync.Mutex).Lock") || core.IsExtCall(ci.Common(), "(*sync.RWMutex).Lock")
+		rlock := core.IsExtCall(ci.Common(), "(*sync.RWMutex).RLock")
+		if !(lock || (rlock && !write)) || len(ci.Common().Args) == 0 || !sameObj(ci.Common().Args[0]) {
+			continue
+		}
+		if _, isCall := ci.(*ssa.Call); !isCall || !core.Dominates(ci, access) {
+			continue
+		}
+		unlockName := "Unlock"
+		if rlock {
+			unlockName = "RUnlock"
+		}
+		for _, cu := range core.Calls(fn) {
+			cal := core.Callee(cu.Common())
+			if cal == nil || cal.Name() != unlockName || len(cu.Common().Args) == 0 || !sameObj(cu.Common().Args[0]) {
+				continue
+			}
+			if _, isDefer := cu.(*ssa.Defer); isDefer && core.Dominates(cu, access) {
+				return true
+			}
+			if _, isCall := cu.(*ssa.Call); isCall && !core.Dominates(cu, access) && c.InstrPostDominates(cu, access) {
 				return true
 			}
 		}
